@@ -76,3 +76,32 @@ Example C06_calls_example :
   acalls 5 [[([1], [65]); ([3], [66])]; []; [([1], [67]); ([2], [68])]]
   = [([1], [[65]; [67]]); ([2], [[68]]); ([3], [[66]])].
 Proof. vm_compute. reflexivity. Qed.
+
+(* ================= streaming the merger into a writer =================
+   the merged stream has strictly ascending keys, exactly the keys of the sources; written through a
+   writer of any configuration it yields a file that opens with that many entries and scans as exactly
+   the merged stream *)
+From Grenad.gen Require Import Consts.
+From Grenad.model Require Import Block Trailer Writer Reader Spec.
+From Grenad.proofs Require Import BlockProofs ReaderRefine WriterStore MergeWriter.
+
+Theorem C06_output_sorted : forall mf calls srcs out n, Forall ssorted srcs ->
+  merge_run mf calls srcs = Done (out, n) ->
+  sorted_strictb (map fst out) = true /\ (forall k, In k (map fst out) <-> has_key k srcs) /\ n = calls + len out.
+Proof. exact merge_output_sorted. Qed.
+Print Assumptions C06_output_sorted.
+
+Theorem C06_into_writer : forall mf calls srcs out n compress decompress c,
+  Forall ssorted srcs -> merge_run mf calls srcs = Done (out, n) ->
+  (forall b z, compress (wc_codec c) (wc_level c) b = Done z -> decompress (wc_codec c) z = Done b) ->
+  (forall b, exists z, compress (wc_codec c) (wc_level c) b = Done z) ->
+  wc_levels c < 256 -> 1 <= wc_interval c -> wc_codec c <= 5 ->
+  out <> [] -> entries_ok out -> len out + 1 <= U32_MAX ->
+  exists s lg m,
+    w_run_gen vsink vs_wr vs_fl vs_count compress c vs_empty out = (len out, Done (s, lg, m)) /\
+    (len (vs_bytes s) < 2^64 -> mem_ok lg ->
+     open_meta (vs_bytes s) = Done m /\ m_count m = len out /\
+     exists st rs, run_ops (load_block decompress (vs_bytes s) (m_codec m)) (m_root m) (m_levels m) cs_fresh
+                           (repeat ONext (S (length out))) = Done (st, rs) /\ rs = map Some out ++ [None]).
+Proof. exact merge_into_writer. Qed.
+Print Assumptions C06_into_writer.
